@@ -23,6 +23,11 @@ class Unsupported(Exception):
     pass
 
 
+class DimMismatch(HarnessError):
+    """two transcriptions that should be the same problem have different numbers of variables / parameters"""
+    pass
+
+
 class RockitRaised(Exception):
     """the real code raised on a well-posed specification"""
     pass
